@@ -174,7 +174,7 @@ def distance(ctx, cname):
         ok2 = len(lv) == 1 and T.same(v, atom(lv[0]) / dim)
         ctx.ob("FRM", site, "distance = (1/d) * sum of the feature distances [%s]" % cname, ok and ok2, q.short(v, 120), cd[0])
     ce = [e for e in tr.of("local") if e.name == "current_epsilon" and e.func.qualname == site]
-    ok = len(ce) == 1 and cd and T.same(ce[0].value, atom(("call", "abs", (cd[0].value - A("_prev_distance"),), ())))
+    ok = len(ce) == 1 and cd and T.same(ce[0].value, T.mk_abs(cd[0].value - A("_prev_distance")))
     ctx.ob("FRM", site, "epsilon = |distance - previous distance| [%s]" % cname, bool(ok), q.short(ce[0].value, 120) if ce else "", ce[0] if ce else None)
     if ce:
         ds = [e for e in tr.stores("_drift_state") if e.value == const("drift")]
